@@ -683,3 +683,30 @@ func freshField(fs []*FieldDef, name string) string {
 	}
 	return name
 }
+
+// AddWideStruct adds a struct with n optional i32 fields to the first file and returns its name.
+func (p *Program) AddWideStruct(n int) string {
+	d := &Def{Kind: KStruct, Name: "WideRecord"}
+	for i := 1; i <= n; i++ {
+		d.Fields = append(d.Fields, &FieldDef{ID: i, Name: fmt.Sprintf("w%d", i), Req: ReqOptional, Type: &TypeRef{Base: "i32"}})
+	}
+	p.add(p.Files[0], d)
+	return d.Name
+}
+
+// RequireAll turns every optional field of the named struct of the first file into a required one
+// and returns how many it changed.
+func (p *Program) RequireAll(name string) int {
+	n := 0
+	for _, d := range p.Files[0].Defs {
+		if d.Name == name && d.Kind == KStruct && !d.Removed {
+			for _, fd := range d.Fields {
+				if fd.Req == ReqOptional {
+					fd.Req = ReqRequired
+					n++
+				}
+			}
+		}
+	}
+	return n
+}
